@@ -403,6 +403,8 @@ class Evaluator:
             a = n.func.attr
             if isinstance(recv, Obj) and callable(recv.__dict__.get(a)):
                 return recv.__dict__[a](*args, **kwargs)
+            if getattr(type(recv), "_fold_ok", False) and callable(getattr(recv, a, None)):
+                return getattr(recv, a)(*args, **kwargs)  # method of a sample-domain class supplied by the rule
             if isinstance(recv, str) and a in _STR_METHODS:
                 return self._builtin(getattr(recv, a), args, kwargs)
             if isinstance(recv, (dict, list, tuple, set)) and a in _CONTAINER_METHODS:
